@@ -788,3 +788,10 @@ def r06_10(ctx):
     from .c17 import maximal_munch_checks
 
     maximal_munch_checks(ctx)  # x++ / x-- are operations of their own in every reading of the text (otherwise the operation vanishes)
+
+
+@rule("R06.11", "C06", "an operation runs once, in the behaviour it belongs to: whatever way a compilation ends (also with an exception), its pending operations do not reach the next behaviour - every entry point resets the transformer on every exit", min_instances=2)
+def r06_11(ctx):
+    from .c14 import r14_2
+
+    r14_2(ctx)
